@@ -1054,6 +1054,33 @@ func runInheritance(c *Ctx) {
 								}
 								continue
 							}
+							// a named condition (`hasX := a && b` tested later): on this path the variable has the value of
+							// the edge by which its block was entered
+							for hops := 0; hops < 4; hops++ {
+								if u, isNot := cond.(*ssa.UnOp); isNot && u.Op == token.NOT {
+									cond, val = u.X, !val
+									continue
+								}
+								ph, isPhi := cond.(*ssa.Phi)
+								if !isPhi {
+									break
+								}
+								var edge ssa.Value
+								for j := i; j > 0; j-- {
+									if path[j] == ph.Block() {
+										for k, pr := range ph.Block().Preds {
+											if pr == path[j-1] && edge == nil {
+												edge = ph.Edges[k]
+											}
+										}
+										break
+									}
+								}
+								if edge == nil {
+									break
+								}
+								cond = edge
+							}
 							bo, isBo := cond.(*ssa.BinOp)
 							if !isBo {
 								continue
